@@ -278,6 +278,10 @@ func (m *Machine) exec(fr *frame, in ssa.Instruction) {
 		i := m.get(fr, x.Index).(*Term)
 		switch b := m.get(fr, x.X).(type) {
 		case Slice:
+			if sp, ok := m.symIndex(i, b.A, b.Off, b.Len); ok {
+				fr.env[x] = sp
+				return
+			}
 			k := m.idx(i, b.Len, "index")
 			fr.env[x] = Ptr{b.A.at(b.Off + k)}
 		case Ptr:
@@ -285,6 +289,10 @@ func (m *Machine) exec(fr *frame, in ssa.Instruction) {
 				m.goPanic("nil pointer dereference (array)")
 			}
 			a := b.C.V.(*Array)
+			if sp, ok := m.symIndex(i, a, 0, len(a.E)); ok {
+				fr.env[x] = sp
+				return
+			}
 			fr.env[x] = Ptr{a.at(m.idx(i, len(a.E), "array index"))}
 		default:
 			unsupported("IndexAddr on %T", b)
@@ -293,6 +301,10 @@ func (m *Machine) exec(fr *frame, in ssa.Instruction) {
 		i := m.get(fr, x.Index).(*Term)
 		switch b := m.get(fr, x.X).(type) {
 		case *Array:
+			if sp, ok := m.symIndex(i, b, 0, len(b.E)); ok {
+				fr.env[x] = m.symLoad(sp)
+				return
+			}
 			fr.env[x] = copyVal(b.at(m.idx(i, len(b.E), "array index")).V)
 		case string:
 			fr.env[x] = m.strIndex(b, i)
@@ -506,6 +518,65 @@ func (m *Machine) nextRune(it *mapIter) Value {
 	return nil
 }
 
+// symIndex: for a symbolic index into an array of scalar terms with more candidates than the
+// fork limit (or any table of constants), bounds-check once and return a SymPtr.
+func (m *Machine) symIndex(i *Term, a *Array, off, n int) (SymPtr, bool) {
+	if i.C != nil || a == nil || n <= 8 {
+		return SymPtr{}, false
+	}
+	if _, _, ok := intInfo(a.Elem); !ok && !isBool(a.Elem) {
+		return SymPtr{}, false
+	}
+	oob := tOr(tCmp("lt", i, mkI(0, i.W), true), tCmp("ge", i, mkI(int64(n), i.W), true))
+	m.panicIf(oob, fmt.Sprintf("index out of range (symbolic) with length %d", n))
+	return SymPtr{A: a, Off: off, Len: n, Idx: i}, true
+}
+
+// symLoad builds ite(idx==k, elem_k, ...) grouping equal constant elements.
+func (m *Machine) symLoad(sp SymPtr) Value {
+	lo, hi := 0, sp.Len-1
+	if !bvMode {
+		if sp.Idx.Lo != nil && sp.Idx.Lo.IsInt64() && int(sp.Idx.Lo.Int64()) > lo {
+			lo = int(sp.Idx.Lo.Int64())
+		}
+		if sp.Idx.Hi != nil && sp.Idx.Hi.IsInt64() && int(sp.Idx.Hi.Int64()) < hi {
+			hi = int(sp.Idx.Hi.Int64())
+		}
+	}
+	var acc *Term
+	// group by value string
+	groups := map[string][]int{}
+	var order []string
+	vals := map[string]*Term{}
+	for k := lo; k <= hi; k++ {
+		t := sp.A.at(sp.Off + k).V.(*Term)
+		if _, ok := groups[t.S]; !ok {
+			order = append(order, t.S)
+			vals[t.S] = t
+		}
+		groups[t.S] = append(groups[t.S], k)
+	}
+	// the largest group becomes the default
+	def := order[0]
+	for _, o := range order {
+		if len(groups[o]) > len(groups[def]) {
+			def = o
+		}
+	}
+	acc = vals[def]
+	for _, o := range order {
+		if o == def {
+			continue
+		}
+		cond := tFalse
+		for _, k := range groups[o] {
+			cond = tOr(cond, tEq(sp.Idx, mkI(int64(k), sp.Idx.W)))
+		}
+		acc = tIte(cond, vals[o], acc)
+	}
+	return m.nameTerm(acc)
+}
+
 func (m *Machine) strIndex(s string, i *Term) *Term {
 	if i.C != nil {
 		k := i.Int64()
@@ -515,6 +586,15 @@ func (m *Machine) strIndex(s string, i *Term) *Term {
 		return mkU(uint64(s[k]), 8)
 	}
 	// table lookup with a symbolic index: bounds check, then an ite chain over distinct byte values
+	if len(s) > 8 {
+		a := newArray(len(s), types.Typ[types.Uint8])
+		for k := 0; k < len(s); k++ {
+			a.E[k] = &Cell{V: mkU(uint64(s[k]), 8)}
+		}
+		if sp, ok := m.symIndex(i, a, 0, len(s)); ok {
+			return m.symLoad(sp).(*Term)
+		}
+	}
 	k := m.idx(i, len(s), "string index")
 	return mkU(uint64(s[k]), 8)
 }
